@@ -308,6 +308,22 @@ func c08(c *Ctx) {
 				"parameter "+p.Name()+" influences the verdict only through a comparison with zero: the same proof verifies for any other value of it")
 		}
 	}
+	// the constructors agree with the verifiers on what a valid index pair is (positions are 1-based, i <= j <= size):
+	// the digest walk is not entered with i == 0 or i > j
+	for _, v := range []struct{ fn, walk string }{
+		{ahT + "InclusionProof", ahT + "inclusionProof"},
+		{ahT + "ConsistencyProof", ahT + "consistencyProof"},
+	} {
+		f := c.mustFn("C08.2/constructor-guards", v.fn)
+		if f == nil {
+			continue
+		}
+		for _, g := range []guard{{"i<=j", iGtJ}, {"i!=0", iZero}} {
+			q := &pathQ{fn: f, fromEntry: true, to: callTo(v.walk), barrier: g.e}
+			c.check(len(sites(f, callTo(v.walk))) > 0 && q.bypass() == nil, "C08.2/constructor-guards", fnName(f)+":guard:"+g.name, c.pos(f.Pos()), "the walk is dominated by "+g.name,
+				"a proof is built without the guard "+g.name+" that the verifiers apply: a proof is handed out for a position that does not exist (and with j == 0 the walk divides by zero)")
+		}
+	}
 	if f := c.mustFn(r, "embedded/htree.VerifyInclusion"); f != nil {
 		q := &pathQ{fn: f, fromEntry: true, to: callTo("crypto/sha256.Sum256"), barrier: whenCond(false, func(a string) bool { return a == "(nil == param:proof)" || a == "(param:proof == nil)" })}
 		c.check(q.bypass() == nil, r, fnName(f)+":nil-proof-rejected", c.pos(f.Pos()), "nil proof rejected before use", "htree.VerifyInclusion dereferences a nil proof")
@@ -468,6 +484,41 @@ func c08(c *Ctx) {
 	c.ruleCallerHolds("C08.4/caller-holds", []string{"embedded/ahtree"}, ahGuard)
 	if c.Analysed["guarded_accesses_AHtree"] < 40 {
 		c.undecided("C08.4/tree-lockset", "floor", fmt.Sprintf("%d guarded accesses of AHtree state found", c.Analysed["guarded_accesses_AHtree"]))
+	}
+
+	// ---- C08.6 empty payloads are readable ---------------------------------------------------------------------------------
+	// Append accepts an empty (non-nil) payload; the appendables refuse a read into an empty buffer
+	// (ErrIllegalArguments), so a payload or digest read whose buffer length comes from stored data is issued only
+	// with a length that is provably >= 1 (an empty payload is answered without touching the log)
+	nra := 0
+	for _, fn := range c.allFns {
+		if !fnInPkgs(fn, []string{"embedded/ahtree"}) || len(fn.Blocks) == 0 {
+			continue
+		}
+		var p *prover
+		per := 0
+		for _, in := range sites(fn, func(in ssa.Instruction) bool {
+			cc := callOf(in)
+			_, isDefer := in.(*ssa.Defer)
+			return cc != nil && !isDefer && cc.IsInvoke() && cc.Method.Name() == "ReadAt" && len(cc.Args) == 2
+		}) {
+			nra++
+			per++
+			if p == nil {
+				p = newProver(c, fn)
+			}
+			o := boundsObl{in, "read buffer len >= 1", newLin(1).add(p.lenOf(callOf(in).Args[0]), -1)}
+			okk, how := p.proveObl(o)
+			construct := fmt.Sprintf("%s:ReadAt#%d", fnName(fn), per)
+			if okk {
+				c.ok("C08.6/no-empty-read", construct, c.pos(in.Pos()), how+": "+o.l.String()+" <= 0")
+			} else {
+				c.fail("C08.6/no-empty-read", construct, c.pos(in.Pos()), "the buffer handed to ReadAt can be empty (need "+o.l.String()+" <= 0): the appendable answers ErrIllegalArguments, an element appended with an empty payload can not be read back once it left the cache")
+			}
+		}
+	}
+	if nra < 3 {
+		c.undecided("C08.6/no-empty-read", "floor", fmt.Sprintf("%d log reads found in embedded/ahtree", nra))
 	}
 
 	// ---- C08.5 cache eviction hand follows removals -----------------------------------------------------------------
